@@ -268,10 +268,14 @@ def evaluate(ctx, node, case):
     if vdt in ("f4", "f8") and case["seed"] % 5 == 1:
         vdt = {"f4": "c8", "f8": "c16"}[vdt]  # a complex operand for a real operator: f(A) (u + i w) = f(A) u + i f(A) w
     v = P.operand(case["seed"], shape, vdt, "normal")
-    if v.ndim == 2 and v.shape[1] > 1:
+    if ref.eps < 1e-10 and case["seed"] % 3 == 0:
+        # f(A) is linear: operands of tiny / huge norm (each column is judged relative to its own norm)
+        v = v * (np.resize(np.array([1e-17, 1.0, 1e13]), v.shape[1]) if v.ndim == 2 else [1e-13, 1e-17, 1e13][case["seed"] % 9 // 3])
+        v = np.asarray(v).astype(P.DT[vdt])
+    elif v.ndim == 2 and v.shape[1] > 1:
         v = v * np.resize(np.array([1e-6, 1.0, 1e6]), v.shape[1]).astype(v.dtype)  # very different column norms
-        if case["seed"] % 4 == 0:
-            v[:, 1] = 0  # a zero column: f(A) 0 = 0 (even where f(0) is infinite)
+    if v.ndim == 2 and v.shape[1] > 1 and case["seed"] % 4 == 0:
+        v[:, 1] = 0  # a zero column: f(A) 0 = 0 (even where f(0) is infinite)
     vw = R._wide(v)
     want = F @ vw
     got = ctx.call(lambda: Fop @ v)
